@@ -393,7 +393,9 @@ PROPS = {
         "streams": [S("p2p", 2500, 60000, timeout=3000),
                     S("frame", 3000, 300000, driver=False), S("disc", 3000, 300000, driver=False)],
         "rule": "p2p stream: one peer session per message against a real ProtocolManager over the mock node's ChainBridge "
-                "(chain of 530 momentums): 12 handshake variants, the boundary grid of the three request handlers "
+                "(chain of 530 momentums): 12 handshake variants; first of all the requests of the repaired findings F7a/F7b (12 "
+                "GetBlockHashes requests naming unknown / zero / one-bit-off hashes, GetBlockHashesFromNumber (0,0), (0,1), (1,0) — "
+                "counters gen-regress-*); the boundary grid of the three request handlers "
                 "(numbers 0/1/2/H-512..H+2/2^63/2^64-512..2^64-1 x amounts 0/1/2/511/512/513/2^63/2^64-1, known/unknown/zero hashes, "
                 "GetBlocks lists of 0..2000 held/unknown hashes), then random well-formed requests (50%), wrong-shape RLP, truncated, "
                 "garbage, huge length prefixes, declared sizes around 10 MiB, unknown codes, two real 10 MiB payloads; "
@@ -402,13 +404,16 @@ PROPS = {
                 "header / header MAC / body / frame MAC, truncated, re-ordered, replayed, with a byte inserted, or garbage; "
                 "discover.decodePacket on signed ping/pong/findnode/neighbors packets with a bit flipped in hash / signature / data, "
                 "truncated, extended, garbage, and re-hashed corrupted bodies",
-        "partial": "proved: reply caps, totality and size gate of the handler MODEL (two clauses only under premises — F7a/F7b, found "
-                   "again by the monitor on the real handler). Not proved, checked by differential run only: survival on every byte "
+        "partial": "proved: reply caps (every chain, every request, no premise), totality (every message; premises on the node only: "
+                   "it holds its genesis momentum and fewer than 2^64-1 momentums, both shown necessary) and size gate of the handler "
+                   "MODEL; the two clauses that were false of the code (F7a, F7b) are repaired (d85e958, 99f2642) and their inputs are "
+                   "sent to the real handler on every run. Not proved, checked by differential run only: survival on every byte "
                    "string (RLP library, downloader/fetcher goroutines), allocation inside rlp, liveness of the message loop; "
                    "rlpx frame MAC/size and discovery packet checks have no model/theorem (T4 frame_reject not built): they are "
                    "exercised by the monitor-only streams frame and disc",
         "assumptions": ["go-ethereum rlp decodes as specified (the stream classifies each payload with the same decoder the handler uses)",
-                        "the chain is abstracted to its height; hashes are identified with the height of the momentum that carries them"],
+                        "the chain is abstracted to its height; hashes are identified with the height of the momentum that carries them",
+                        "handler_total: the node holds its genesis momentum and its height is below 2^64-1 (no premise on the message)"],
         "trusted_base": ["p2p.MsgPipe session harness (probe message delimits the node's answer)"],
     },
     "C16": {
@@ -418,12 +423,16 @@ PROPS = {
                 "(fork 1..36 below the tip); followers receive batches through the real chainBridge.InsertChain after an RLP round "
                 "trip: directed sweep fork depth {1,2,3,5,10,17,29,30,31,32,35} x tail {shorter,equal,+1,+3}; 10 corruption kinds x "
                 "{first,last,middle} x {extension with known prefix, side chain}; non-linking second elements; random: extensions, "
-                "overlaps, duplicates, gaps, empty, forks with/without known prefix, fabricated heads. n counts test batches (the clean "
+                "overlaps, duplicates, gaps, empty, forks with/without known prefix, fabricated heads; on every run the batches of the "
+                "repaired finding F7c on a mid-trunk follower and on a genesis-only follower (empty batch, first unknown momentum at "
+                "frontier+2 / +6 / 2^62, with a known prefix in front, claimed height 0 / 1; counters directed-*), followed by the honest "
+                "continuation. n counts test batches (the clean "
                 "batches that position a follower are extra lines, also replayed); distinct = distinct lines",
         "partial": "momentum + account-block verification is an oracle (`valid`) of the model — C03/C05 own it; the stream supplies it as "
                    "'bytes are the producer's own' and the monitor checks the node only ever holds such bytes. Downloader/fetcher "
-                   "queueing and peer dropping are not modelled. insert_total only under premises (F7c); the rollback happens before "
-                   "verification (F7d, negative witness)",
+                   "queueing and peer dropping are not modelled. insert_total holds for every node and batch (F7c repaired in 264f72a: "
+                   "empty and unlinkable batches are refused without touching the node); the rollback happens before "
+                   "verification (F7d, known finding, negative witness rollback_before_verification)",
         "assumptions": ["full verification of one delivered momentum on the state it extends is an oracle valid : DM -> Bool plus the link test",
                         "hashes are collision-free on the inputs that arise (8-byte prefixes identify momentums in the line protocol)"],
     },
